@@ -511,9 +511,9 @@ Proof.
   - cbn [q_loop]. rewrite <- !bind_assoc.
     eapply rrel_bind; [apply step_sim; eassumption|]. intros c1 c2 (Ev & El & Sc & Fc). cbv zeta.
     rewrite <- Ev, <- El.
-    destruct (sim_check_up _ _ Sc) as (Eu & Su). pose proof (fr_check_up (pop (ist c1))) as Fu.
-    destruct (check_up (pop (ist c1))) as [up1 s1]. destruct (check_up (pop (ist c2))) as [up2 s2].
-    cbn [fst snd] in *. subst up2. pose proof (fr_trans _ _ _ Fc Fu) as F.
+    destruct (sim_check_up _ _ (sim_poll _ _ Sc)) as (Eu & Su). pose proof (fr_check_up (poll (pop (ist c1)))) as Fu.
+    destruct (check_up (poll (pop (ist c1)))) as [up1 s1]. destruct (check_up (poll (pop (ist c2)))) as [up2 s2].
+    cbn [fst snd] in *. subst up2. pose proof (fr_trans _ _ _ (fr_trans _ _ _ Fc (fr_poll (pop (ist c1)))) Fu) as F.
     destruct up1; [apply ires_rel_intro; assumption|].
     destruct (- iv c1 >=? beta); [apply ires_rel_intro; assumption|].
     destruct (- iv c1 >? alpha).
